@@ -566,8 +566,10 @@ def real_data(d, style, units, ff, natypes=None, fname=None):
         return (err_class(e), f'{type(e).__name__}: {e}')
 
 
-def real_dump(d, units, ff, prop_names=None):
+def real_dump(d, units, ff, prop_names=None, timestep=0):
     s = build_system(d)
+    if timestep:
+        s.timestep = timestep      # what a system loaded from a dump file carries
     try:
         kw = {}
         if prop_names is not None:
@@ -1119,7 +1121,7 @@ def py_parse_dump(text):
     return {'timestep': ts, 'natoms': n, 'tri': tri, 'boundary': b, 'hilo': hilo, 'cols': cols, 'rows': rows}
 
 
-def check_dump(d, units, ff, parsed):
+def check_dump(d, units, ff, parsed, timestep=0):
     V, O, P = fr_sys(d)
     lf = oracle_factor(units, 'length')
     if lf == 'undefined':
@@ -1127,6 +1129,8 @@ def check_dump(d, units, ff, parsed):
     lf = lf or Fraction(1)
     ck = Checker(ff, magnitude(d, lf))
     n = len(P)
+    if parsed['timestep'] != timestep:
+        ck.fail('timestep', f'TIMESTEP {parsed["timestep"]}, the system is at step {timestep}')
     if parsed['natoms'] != n:
         ck.fail('count', f'NUMBER OF ATOMS {parsed["natoms"]}, the system has {n}')
     h = parsed['hilo']
@@ -1325,7 +1329,8 @@ def gen_dump_case(rng, i):
         # explicit column selection with scaled / unwrapped position variants
         prop_names = ['atom_id', 'atype'] + rng.sample(['pos', 'spos', 'upos', 'supos'], rng.randint(1, 3)) \
             + [p for p in d['props'] if p != 'atom_id' and rng.random() < 0.7]
-    return {'kind': 'dump', 'd': d, 'units': units, 'ff': ff, 'prop_names': prop_names}
+    return {'kind': 'dump', 'd': d, 'units': units, 'ff': ff, 'prop_names': prop_names,
+            'timestep': rng.choice([0, 0, 1, 12, 250000, 10 ** 9])}
 
 
 def gen_poscar_case(rng, i):
@@ -1392,7 +1397,7 @@ def model_line(c):
     if c['kind'] == 'dump':
         pw = dump_props_for_wire(c)
         ps = ' '.join(f'{nm} {len(sh)}' + ''.join(f' {x}' for x in sh) for nm, sh in pw)
-        return f"dump {c['ff']} 0 {len(pw)} {ps} {enc_sys(d)} {enc_units(unit_factors(c['units']))}"
+        return f"dump {c['ff']} {c.get('timestep', 0)} {len(pw)} {ps} {enc_sys(d)} {enc_units(unit_factors(c['units']))}"
     if c['kind'] == 'poscar':
         hw = c['header'].split()
         sy = c['symbols']
@@ -1409,7 +1414,7 @@ def real_call(c):
     if c['kind'] == 'data':
         return real_data(c['d'], c['style'], c['units'], c['ff'], c['natypes'], c['fname'])
     if c['kind'] == 'dump':
-        return real_dump(c['d'], c['units'], c['ff'], c['prop_names'])
+        return real_dump(c['d'], c['units'], c['ff'], c['prop_names'], c.get('timestep', 0))
     if c['kind'] == 'poscar':
         return real_poscar(c['d'], c['ff'], c['coordstyle'], c['scale'], c['header'], c['symbols'])
     return real_table(c['d'], c['ff'], c['cols'], c['units'], c['header'])
@@ -1639,7 +1644,7 @@ def run_cases(ctx, cases, tie=True):
                         and [a['image'] for a in parsed['atoms']] == [a['image'] for a in ref['atoms']] and parsed['vel'] == ref['vel'])
             elif kind == 'dump':
                 parsed, same = decode_pdump(o, real[1])
-                fails = check_dump(c['d'], c['units'], c['ff'], parsed)
+                fails = check_dump(c['d'], c['units'], c['ff'], parsed, c.get('timestep', 0))
             else:
                 parsed, same = decode_pposcar(o, real[1])
                 fails = check_poscar(c['d'], c['ff'], c['coordstyle'], c['scale'], c['symbols'], parsed)
@@ -1825,7 +1830,7 @@ def oracle_case(ctx, c, report):
                                info=real[2], fname=c['fname'])
         elif kind == 'dump':
             parsed = py_parse_dump(text)
-            fails = check_dump(c['d'], c['units'], c['ff'], parsed)
+            fails = check_dump(c['d'], c['units'], c['ff'], parsed, c.get('timestep', 0))
         else:
             parsed = py_parse_poscar(text)
             fails = check_poscar(c['d'], c['ff'], c['coordstyle'], c['scale'], c['symbols'], parsed)
